@@ -831,7 +831,8 @@ class CHECK(Check):
                   "__init__-derived attributes and their parameter dependencies, the moment latch, the three adversarial "
                   "re-initialisation rules and the prefit branch are lifted from the ast; src_* theorems (decide over the "
                   "generated finite tables) give params_unchanged / fit_returns_self / predict_pure per class, the EG nu "
-                  "exception and the GridSearch objective_weight exception stay visible as theorems; the machines run under "
+                  "exception stays visible as a theorem (F5c), the GridSearch objective_weight staleness (F5f, repaired) as the "
+                  "counter-witness machine; the machines run under "
                   "the lifted flags (lifesrc.run) and the lifted flags are cross-checked against the runtime probe. "
                   "set_params histories (Model/LifecycleParams.lean): fit after set_params(p=v) = fresh(p=v).fit for every "
                   "history iff fit reads no parameter-derived attribute. prefit=True: the user's estimator is never refitted. "
@@ -1229,10 +1230,8 @@ class CHECK(Check):
         elif (cls == "EG" and not ADAPTERS["EG"].nu_given(info.get("cfg")) and rel == "C19.history_free"
               and info.get("explained_by_nu")):
             hit = "F5c"
-        # F5f: GridSearch: a fit after set_params(constraint_weight=..) (no clone in between) uses the objective_weight
-        #      computed by __init__ from the OLD constraint_weight
-        elif cls == "GS" and rel == "C19.set_params_history_free" and info.get("stale") and ADAPTERS["GS"].alt[0] == "constraint_weight":
-            hit = "F5f"
+        # (F5f, GridSearch objective_weight stale after set_params(constraint_weight=..), was repaired in /repo 2f54dd0: no
+        #  predicate any more — a revert is reported as a violation of C19.set_params_history_free)
         # F5d: adversarial, warm_start=False: a second fit on the same object differs from a fresh fit
         elif cls == "ADV" and rel == "C19.history_free" and info.get("refit"):
             hit = "F5d"
